@@ -1159,10 +1159,16 @@ def run(ctx):
                   extra={"scripted_transitions": ndraws, "cgls_stop_fired": nfired,
                          "ugla_state": {k: ("repaired" if v[0] else "defect-present") for k, v in st.items()}},
                   assumptions=["inner solver: CGLS is run with tol=1e-13 and maxit=400 and its result is accepted through the certificate "
-                               "|M^T M x - M^T(b_tild+e)|_inf <= 1e-8 (1+|rhs|_inf) evaluated over Qc on the model's operator (convergence itself is C16's)",
-                               "numpy sqrt / cholesky / inv inside Gaussian and GMRF are oracles: the observed sqrtprec S is checked against S^T S = user precision (1e-9)",
+                               "|M^T M x - M^T(b_tild+e)|_inf <= 1e-8 max(|M^T(b_tild+e)|_inf, |M^T(b_tild+e - M x_cur)|_inf) evaluated over Qc on the model's "
+                               "operator (relative to the solver's own reference, the initial normal residual; convergence itself is C16's); the stop must have fired "
+                               "on the residual clause, not on CGLS's absolute clause normx*tol >= 1 (x-units above 2^34 are therefore not posed)",
+                               "no absolute tolerance anywhere: vectors/matrices are compared relative to the largest entry of the model's block (stacked vectors: per "
+                               "likelihood/prior block), x-valued quantities relative to max(|posterior mean|, posterior std) (oracle: exact; model: read off), only the "
+                               "dimensionless H G G^T vs I, sw^4((Dz)^2+beta) vs 1 and rs^2 scale vs 1 are compared with 1 as reference",
+                               "numpy sqrt / cholesky / inv inside Gaussian and GMRF are oracles: the observed sqrtprec S is checked against S^T S = user precision (1e-9 of its largest entry)",
                                "GMRF: the precision operator P_op is read from the prior object (its definition is C20's); periodic/neumann use the class's own sqrt(eps) regularisation",
-                               "float rounding of the implementation is not modelled: EXACT comparison only on dyadic data, otherwise 1e-9 / 1e-6 relative"])
+                               "float rounding of the implementation is not modelled: EXACT comparison on data with <= 14 significant bits (any power-of-two unit), otherwise 1e-9 / 1e-6 relative",
+                               "the oracle's posterior mean and covariance are exact (Fractions) from the user-level inputs; current states are posed at the posterior's scale"])
 
 
 # ---------------------------------------------------------------------------------------------
